@@ -485,10 +485,18 @@ func (e *racEnv) call(x *ECall) gval {
 			return gval{s: "func() *big.Int { w, _ := " + st + ".Width(); return big.NewInt(int64(w)) }()", k: gInt}
 		}
 		return gval{s: "func() bool { _, ok := " + st + ".Width(); return ok }()", k: gBool}
-	case "istr":
+	case "istr", "isstr", "isbytes", "ibytes":
 		st := e.eval(a[0]).s
 		if strings.HasPrefix(st, "racIface(") && strings.HasSuffix(st, ")") {
 			st = st[len("racIface(") : len(st)-1]
+		}
+		switch x.Fn {
+		case "isstr":
+			return gval{s: "func() bool { _, ok := interface{}(" + st + ").(string); return ok }()", k: gBool}
+		case "isbytes":
+			return gval{s: "func() bool { _, ok := interface{}(" + st + ").([]byte); return ok }()", k: gBool}
+		case "ibytes":
+			return gval{s: "func() []byte { b, _ := interface{}(" + st + ").([]byte); return b }()", k: gSlice, elem: types.Universe.Lookup("byte").Type()}
 		}
 		return gval{s: "racStr(func() string { s, _ := interface{}(" + st + ").(string); return s }())", k: gInt}
 	case "beval":
@@ -496,8 +504,8 @@ func (e *racEnv) call(x *ECall) gval {
 	case "bytes":
 		// strings are represented by their codes (racStr(string(x))): take the text itself
 		inner := e.eval(a[0]).s
-		if strings.HasPrefix(inner, "racStr(string(") && strings.HasSuffix(inner, "))") {
-			inner = inner[len("racStr(string(") : len(inner)-2]
+		if strings.HasPrefix(inner, "racStr(") && strings.HasSuffix(inner, ")") {
+			inner = inner[len("racStr(") : len(inner)-1] // a string expression
 		}
 		return gval{s: "[]byte(" + inner + ")", k: gSlice, elem: types.Universe.Lookup("byte").Type()}
 	case "len":
